@@ -242,6 +242,10 @@ def explore(ctx: Ctx):
     mapping = readme_mapping()
     n = ctx.n(70, 700)
     designs = [make_design(rng, i) for i in range(n)]
+    for i, d in enumerate(designs):
+        if i % 5 == 0 and d['mode'] == 'sge' and d.get('pam'):
+            # replayed in another process under another hash seed: a targeton listing several guides (its name joins them)
+            d['targetons'][0]['sgrna'] = sorted({p_['sgrna'] for p_ in d['pam']} | {'sg1', 'sg2', 'sg3'})
     jobs = [(d, 'subproc' if i % 5 == 0 else 'inproc') for i, d in enumerate(designs)]
     results = pool_map(run_and_replay, jobs, chunksize=2)
     exprs, meta = [], []
